@@ -141,6 +141,20 @@ def constrained_cases():
                  ('3006020105040161', False), ('300a0201050405 6162636465'.replace(' ', ''), False)]))
     nested = univ.SequenceOf(componentType=so)
     out.append(('SEQUENCE OF SEQUENCE (SIZE 1..2) OF INTEGER', nested, [('30023000', False), ('30053003020101', True)]))
+    # constraints of the record itself (WITH COMPONENTS): definite and indefinite forms alike
+    for cls, t0 in ((univ.Sequence, '30'), (univ.Set, '31')):
+        wc = cls(componentType=namedtype.NamedTypes(namedtype.OptionalNamedType('id', univ.Integer()),
+                                                    namedtype.OptionalNamedType('name', univ.OctetString())),
+                 subtypeSpec=constraint.WithComponentsConstraint(('id', constraint.ComponentPresentConstraint()),
+                                                                 ('name', constraint.ComponentAbsentConstraint())))
+        items = [(t0 + '00', False), (t0 + '03020105', True), (t0 + '0702010504026162', False), (t0 + '0404026162', False),
+                 (t0 + '800000', False), (t0 + '800201050000', True), (t0 + '80020105040261620000', False)]
+        out.append(('%s { id INTEGER OPTIONAL, name OCTET STRING OPTIONAL } (WITH COMPONENTS { id PRESENT, name ABSENT })' % cls.__name__.upper(),
+                    wc, items))
+        if cls is univ.Sequence:
+            out.append(('SEQUENCE OF that SEQUENCE', univ.SequenceOf(componentType=wc),
+                        [('3000', True), ('30023000', False), ('30053003020105', True), ('30803080000000 00'.replace(' ', ''), False),
+                         ('3080308002010500000000', True)]))
     return out
 
 
